@@ -85,6 +85,17 @@ def build_specs(basic_nodes: dict, basic_marks: dict, list_nodes: dict) -> dict:
     n["cell"] = {"content": "block+"}
     Z["grid"] = {"nodes": n, "marks": _strip(basic_marks)}
 
+    # positional top node: "heading paragraph+"
+    n = _strip(basic_nodes)
+    n["doc"] = {"content": "heading paragraph+"}
+    Z["hp"] = {"nodes": n, "marks": _strip(basic_marks)}
+
+    # textblocks whose INLINE content is order / count sensitive
+    n = _strip(basic_nodes)
+    n["caption"] = {"content": "image? text*", "group": "block"}
+    n["label"] = {"content": "text{0,2}", "group": "block"}
+    Z["inlstrict"] = {"nodes": n, "marks": _strip(basic_marks)}
+
     # Z9 marks on top-level blocks
     n = _strip(basic_nodes)
     n["doc"] = {**n["doc"], "marks": "_"}
@@ -127,6 +138,10 @@ def build_specs(basic_nodes: dict, basic_marks: dict, list_nodes: dict) -> dict:
                      "parseDOM": [{"tag": "p", "context": ctx, "priority": 60}],
                      "toDOM": lambda _n: ["p", {"class": "note"}, 0]}
         Z[cid] = {"nodes": n, "marks": _strip(basic_marks), "context": ctx}
+        # the same rule with an attribute getter (rules combining `context` and `getAttrs`)
+        n2 = _strip(n)
+        n2["note"] = {**n["note"], "parseDOM": [{"tag": "p", "context": ctx, "priority": 60, "getAttrs": lambda _dom: {}}]}
+        Z[cid + "_ga"] = {"nodes": n2, "marks": _strip(basic_marks), "context": ctx}
     return Z
 
 
